@@ -3225,6 +3225,8 @@ class Circuit(Unitary, StateVectorMap, Collection[Operation]):
     def __imul__(self, rhs: int) -> Circuit:
         """Repeat this circuit in place."""
         circuit = self.copy()
+        if rhs <= 0:
+            self.clear()
         for x in range(rhs - 1):
             self.append_circuit(circuit, list(range(self.num_qudits)))
         return self
